@@ -559,12 +559,12 @@ class ktensor:
                 "components in ktensor."
             )
 
-        if weight_factor is not None and not (
-            isinstance(weight_factor, (int, np.integer))
-            and -self.ndims <= weight_factor < self.ndims
-        ):
+        if weight_factor is not None:
             # Rejected before anything is normalised or sorted
-            assert False, "weight_factor must be the index of a factor matrix"
+            try:
+                self.factor_matrices[weight_factor]
+            except (IndexError, TypeError):
+                assert False, "weight_factor must be the index of a factor matrix"
 
         # TODO there is a relationship here between normalize and arrange that repeats
         #  tasks. Can this be made to be more efficient? ensure that factor matrices
